@@ -2,6 +2,7 @@ package main
 
 import (
 	"encoding/json"
+	mrand "math/rand"
 	"reflect"
 )
 
@@ -16,3 +17,5 @@ func remarshal(in any, out any) {
 	b, _ := json.Marshal(in)
 	json.Unmarshal(b, out)
 }
+
+func newRand(seed int64) *mrand.Rand { return mrand.New(mrand.NewSource(seed)) }
